@@ -83,6 +83,15 @@ func (v *Verdict) Sample(s any) {
 	v.mu.Unlock()
 }
 
+// SampleFirst records s only when no sample has been recorded yet.
+func (v *Verdict) SampleFirst(s any) {
+	v.mu.Lock()
+	if len(v.Samples) == 0 {
+		v.Samples = append(v.Samples, s)
+	}
+	v.mu.Unlock()
+}
+
 func (v *Verdict) SetMaxSamples(n int) { v.maxSamples = n }
 
 // Violate records a violation; at most 3 witnesses are kept per signature (the count is exact).
